@@ -176,6 +176,7 @@ type Case struct {
 	MaxSize    int     `json:"maxSize,omitempty"`
 	UserOpts   int     `json:"userDialOptions,omitempty"` // extra dial options of the caller: 1 default service config selecting pick_first, 2 one with only a retry policy, 3 one with another grpc_gcp config, 4 a user agent
 	NoDialFunc bool    `json:"noDialFunc,omitempty"`      // no DialFunc in the options: the library dials itself with the caller\'s options (reduced scenario, see RunDefaultDialer)
+	ExtClose   int     `json:"extClose,omitempty"`        // >0: right before Close the application itself closes the connection of one endpoint (the one with this index among the open pools) that it had handed out through its DialFunc
 	Init       Options `json:"init"`
 	Ops        []Op    `json:"ops"`
 	Failure    *Fail   `json:"failure,omitempty"`
@@ -927,7 +928,26 @@ func Run(c *Case, props map[string]bool) (res Result) {
 		}
 	}
 	w.step = len(c.Ops)
-	if err := gme.Close(); err != nil {
+	extClosed := false
+	if c.ExtClose > 0 {
+		var open []string
+		for _, e := range EPNames {
+			if w.open(e) == 1 {
+				open = append(open, e)
+			}
+		}
+		if len(open) > 0 {
+			e := open[(c.ExtClose-1)%len(open)]
+			for _, cc := range w.dialed[e] {
+				if cc.GetState() != connectivity.Shutdown {
+					cc.Close()
+				}
+			}
+			extClosed = true
+			w.labels["connection-closed-by-the-application-before-Close"]++
+		}
+	}
+	if err := gme.Close(); err != nil && !extClosed {
 		// a ClientConn's Close only fails when it was closed before: a pool the object still held was closed already
 		w.fail("C16", "close-error", "Close of a healthy object returned %v: it still held a pool that had been closed before", err)
 	}
